@@ -361,9 +361,9 @@ Section Inv.
             apply (f_equal (@length event)) in E'; cbn in E'; lia.
         + unfold do_stat in D. destruct (faulty _ _); injection D; intros <- _; cbn in E';
             apply (f_equal (@length event)) in E'; cbn in E'; lia.
-        + unfold do_delete in D. destruct (faulty _ _); injection D; intros <- _; cbn in E';
+        + unfold do_delete in D. destruct (faulty _ _); [|destruct (efaulty _ _)]; injection D; intros <- _; cbn in E';
             apply (f_equal (@length event)) in E'; cbn in E'; lia.
-        + unfold do_store in D. destruct (faulty _ _); [|destruct (is_dir _ _)]; injection D; intros <- _; cbn in E';
+        + unfold do_store in D. destruct (faulty _ _); [|destruct (is_dir _ _); [|destruct (efaulty _ _)]]; injection D; intros <- _; cbn in E';
             apply (f_equal (@length event)) in E'; cbn in E'; lia.
         + (* ACancelled: no log entry, but the program advances to a strict subterm *)
           injection Ex; intros <- <-.
